@@ -769,8 +769,12 @@ func RunOne(u Universe, b Behaviour, tw *trace.Writer) (int, int, error) {
 	w := world.New()
 	ctx := world.Ctx()
 	s := &sim{w: w, ctx: ctx, u: u, pend: map[string]bool{}, tw: tw, created: map[string]*v1.NodeClaim{}}
+	shapes := trace.M{}
+	for _, p := range u.Pods {
+		shapes[p] = trace.M{"std": absPod(s.mkPod(p, "", "-")), "alt": absPod(s.mkPod(p, "", "alt"))}
+	}
 	tw.Begin(trace.M{"module": "ClusterState", "tag": b.Tag, "nodes": u.Nodes, "claims": u.Claims, "pods": u.Pods, "pids": u.Pids,
-		"pools": u.Pools, "ports": u.Ports, "vols": u.Vols})
+		"pools": u.Pools, "ports": u.Ports, "vols": u.Vols, "shapes": shapes})
 	w.EnvCreate(world.NodeClass())
 	for _, p := range u.Pools {
 		w.EnvCreate(world.NodePool(p))
